@@ -496,6 +496,8 @@ func closureOf(v ssa.Value) (*ssa.Function, bool) {
 		return x.Fn.(*ssa.Function), true
 	case *ssa.Function:
 		return x, true
+	case *ssa.ChangeType:
+		return closureOf(x.X)
 	case *ssa.UnOp:
 		if addr, ok := core.IsLoad(x); ok {
 			if cell, ok := addr.(*ssa.Alloc); ok {
